@@ -218,6 +218,16 @@ def structured_cases(rng, n):
     for body in ['(y) z', '(x)', '( a , b ) c', '()', '(y) z (w)']:
         for sep in ['\n', ' ', '\t', ' /**/ ', '/**/', '\\\n', ' \\\n', '']:
             out.append(('#define X%s%s\n> X(1) X (2) X <\n#define Y%s%s\n> Y(3) <\n' % (sep, body, sep, body.replace('y', 'q').replace('x', 'q')), {'struct:define-name-then-paren'}))
+    # only parentheses nest inside macro arguments: commas inside braces, brackets and angle brackets separate arguments
+    for (o, c) in [('{', '}'), ('[', ']'), ('<', '>'), ('(', ')'), ('{(', ')}'), ('({', '})'), ('"', '"'), ("'", "'")]:
+        inner = 'p, q' if o not in ('"', "'") else (',' if o == "'" else 'p, q')
+        out.append(('#define FIRST(x, ...) x\n#define REST(x, ...) [__VA_ARGS__]\n#define SECOND(x, y, ...) y\n#define CNT(...) N(__VA_ARGS__, 4, 3, 2, 1)\n#define N(a, b, c, d, n, ...) n\n'
+                    '> FIRST(%s%s%s, 3) | REST(%s%s%s, 3) | SECOND(%s%s%s, 3, 4) | CNT(%s%s%s) <\n' % ((o, inner, c) * 4), {'struct:argument-nesting'}))
+    # parameter names of which another identifier in the body (or another parameter) is a proper prefix or extension
+    for (params, body, call) in [('integer', 'int integer = 0 ; inte integerx', 'n'), ('value, v', '((value) * v) val values v', '2, 3'), ('str, s', '#s #str s##str str##s st', 'p, q'),
+                                 ('ab, a, abc', 'a ab abc a##ab abcd b', '1, 2, 3'), ('x, xx, xxx', 'xxx xx x x##xx #xx', 'r, s, t'), ('done, do', 'do done don dones', 'u, v'),
+                                 ('_, __, _1', '_ __ _1 ___ _1_', 'a, b, c')]:
+        out.append(('#define PM(%s) [%s]\n> PM(%s) <\n' % (params, body, call), {'struct:parameter-name-prefixes'}))
     names = ['ID', 'APPLY', 'B', 'CALL', 'WRAP', 'F', 'G', 'H']
     for i in range(n):
         r = rng.random()
